@@ -40,6 +40,14 @@ class Engine(EngineBase):
                 "listing order and chunking drawn from the seed. both tiers walk the whole product (quick once, thorough ten times with different "
                 "seeds for state points, listing order and chunking). distinct = configuration tuples; non-trivial = a refusal or a migration was checked")
 
+    def extra_evidence(self, stats):
+        return {"configuration_product_size": SPACE,
+                "explanation": "run index i executes configuration i mod SPACE (mixed radix over version/layout, "
+                               "name, workspace setting, legacy files, job count, project document); a run count "
+                               ">= SPACE therefore walks the whole product; state points, listing order and write "
+                               "chunking are seeded, so this is not an exhaustive enumeration of inputs",
+                "exhaustive": False}
+
     def generate_indexed(self, index, rng, tier):
         i = index
         i %= SPACE
